@@ -15,6 +15,7 @@ import CassisModel.Model.Merge
 import CassisModel.Model.Xmi
 import CassisModel.Model.Json
 import CassisModel.Model.TsXml
+import CassisModel.Model.Comparable
 import CassisModel.Gen.Builtins
 import CassisModel.Spec.BuiltinChecks
 
@@ -409,6 +410,15 @@ def dumpCas (ci : Nat) (fine : Bool) : M Json := do
         (toString p.1, Json.mkObj [("type", jStr o.ty), ("feats", Json.mkObj feats)]))
     pure (jOk (Json.mkObj [("views", Json.arr views.toArray), ("fs", Json.mkObj fss)]))
 
+partial def jCell : Comparable.Cell → Json
+  | .none => Json.null
+  | .int i => jInt i
+  | .float t => Json.mkObj [("f", jStr t)]
+  | .bool b => Json.bool b
+  | .str s => jStr s
+  | .text t => Json.mkObj [("t", jList jNat t)]
+  | .list l => Json.arr (l.map jCell).toArray
+
 def splitPath (p : String) : List String := p.splitOn "."
 
 def runOp (j : Json) : M Json := do
@@ -637,6 +647,35 @@ def runOp (j : Json) : M Json := do
       let d1 ← dumpCas c1i false
       let d2 ← dumpCas c2i false
       pure (jOk (Json.arr #[d1, d2]))
+  | "cas.reload" =>
+    -- load(save(cas)) through one of the formats, with the CAS's own type system; allocates a handle
+    let (ci, h0) ← getHandle (← liftP (fldNat j "h"))
+    let (ti, ts) ← casTsOf ci
+    let fmt ← liftP (fldStr j "fmt")
+    let w ← get
+    let r : Except Err World :=
+      if fmt == "xmi" then do
+        let (doc, st) ← Xmi.saveXmi K ts w.cass.toList ci w.heap
+        let c0 := (w.cass[ci]?).getD default
+        let w1 := { w with heap := st.heap, cass := w.cass.set! ci { c0 with nextXid := st.nextXid } }
+        let c1i := w1.cass.size
+        let ld ← Xmi.loadXmi K ts ti c1i h0.lenient w1.heap doc
+        pure { w1 with heap := ld.heap, cass := w1.cass.push ld.cas, casTs := w1.casTs.push ti,
+                       handles := w1.handles.push (c1i, { view := Cas.INITIAL_VIEW, lenient := h0.lenient }) }
+      else do
+        let (jdoc, st) ← Json.saveJson K ts w.cass.toList ci w.heap .full
+        let c0 := (w.cass[ci]?).getD default
+        let w1 := { w with heap := st.heap, cass := w.cass.set! ci { c0 with nextXid := st.nextXid } }
+        let c1i := w1.cass.size
+        let t1i := w1.tss.size
+        let ld ← Json.loadJson K ts t1i c1i h0.lenient true w1.heap jdoc
+        pure { w1 with heap := ld.heap, tss := w1.tss.push ld.ts, cass := w1.cass.push ld.cas, casTs := w1.casTs.push t1i,
+                       handles := w1.handles.push (c1i, { view := Cas.INITIAL_VIEW, lenient := h0.lenient }) }
+    match r with
+    | .error e => pure (jErr e.toString)
+    | .ok w' =>
+      set w'
+      pure (jOk (jNat w.handles.size))
   | "cas.new" =>
     let ti ← liftP (fldNat j "ts")
     let _ ← getTs ti
@@ -785,6 +824,26 @@ def runOp (j : Json) : M Json := do
         ("fs", jList (fun (p : Int × Nat) => Json.arr #[jInt p.1, jNat p.2]) s.allFs),
         ("pops", jNat s.pops), ("pushes", jNat s.pushes), ("list_steps", jNat s.listSteps),
         ("bound", jNat (seeds.length + Traverse.totalOut K ts { generateIds := gen, includeInlinable := inl } w.heap (w.heap.length + 1)))]))
+  | "cas.comparable" =>
+    let (ci, _) ← getHandle (← liftP (fldNat j "h"))
+    let mark ← liftP (boolD j "mark_indexed" true)
+    let cov ← liftP (boolD j "covered_text" true)
+    let excl ← match optFld j "exclude" with
+      | some a => liftP (do (← a.getArr?).toList.mapM (·.getStr?))
+      | none => pure []
+    let c ← getCas ci
+    let (_, ts) ← casTsOf ci
+    let w ← get
+    let seeds ← match optFld j "seeds" with
+      | some s => do pure (some (← liftP (natList s)))
+      | none => pure none
+    res (Comparable.render K ts w.cass.toList ci w.heap { markIndexed := mark, coveredText := cov, exclude := excl }
+          (fun _ => 0) seeds) fun (secs, s) => do
+      set { w with heap := s.heap }
+      setCas ci { c with nextXid := s.nextXid }
+      pure (jOk (jList (fun (sec : Comparable.Section) => Json.mkObj [
+        ("type", jStr sec.tyName), ("header", jList jStr sec.header),
+        ("rows", jList (fun r => jList jCell r) sec.rows)]) secs))
   | _ => throw "bad-op"
 
 def runSession (ops : List Json) : List Json :=
